@@ -90,6 +90,7 @@ def qcow2_snap(draw, tier):
             "share_active": draw(st.sampled_from([False, False, False, True])),
         })
     base["snapshots"] = snaps
+    base["open_late"] = draw(st.booleans())  # open the snapshot views only after the active view has been read from
     base["far_base"] = min(base["far_base"], 1 << 40)  # snapshot views may hold compressed clusters of their own
     base["comp_far"] = 0
     return {"family": "qcow2-snap", "image": base, "size": ng << cb, "unit": 1 << cb}
@@ -184,7 +185,7 @@ def vhdx_chain(draw, tier):
             "locator": loc, "blocks": [[b, s, where.get(b, 0)] for b, s in zip(desc, states)], "partial": partial, "sb": sb,
             "layer": i, "parent_dir": parent_dir,
         })
-    mode = draw(st.sampled_from(["ok", "ok", "ok", "ok", "ok", "missing", "bad-locator-type"]))
+    mode = draw(st.sampled_from(["ok", "ok", "ok", "ok", "ok", "missing", "bad-locator-type", "nameless", "absolute"]))
     return {"family": "vhdx", "layers": layers, "size": size, "unit": bs, "mode": mode, "sector": ss}
 
 
@@ -211,7 +212,9 @@ def vmdk_chain(draw, tier):
         hint_style = draw(st.sampled_from(["plain", "relative", "windows", "unix-abs"]))
         layers.append({"extents": exts, "top_kind": top_kind, "parent_dir": pdir, "hint_style": hint_style,
                        "crlf": draw(st.booleans())})
-    mode = draw(st.sampled_from(["ok", "ok", "ok", "ok", "ok", "missing"]))
+    mode = draw(st.sampled_from(["ok", "ok", "ok", "ok", "ok", "missing", "nameless"]))
+    if mode == "nameless" and layers[-1]["top_kind"] != "monolithic":
+        mode = "ok"
     return {"family": "vmdk", "layers": layers, "size": cap * 512, "unit": 512 * 64, "mode": mode}
 
 
@@ -356,12 +359,18 @@ def run_qcow2_snap(spec, out):
     out.nontrivial = True
     # interleave reads on the active view and every snapshot view (they share the file handle and the L2 cache)
     views = [("active", q, c01.model_of(img, layers, "active"))]
+    if img.get("open_late"):
+        # small reads at the start and at the first request fill the active view's buffer before the views are created
+        check_reads(out, q, views[0][2], [[0, 100], [spec["requests"][0][0], 10]], "qcow2-snap-active")
     for i, (s, ss) in enumerate(zip(snaps, img["snapshots"])):
         v, err = lib(s.open)
         if err:
             out.fail(err.sig("qcow2-snap-open-view"), f"snapshot.open() raised {err.describe()}")
             return
         views.append((f"snap{i}", v, c01.model_of(img, layers, "active" if ss.get("share_active") else i)))
+    if img.get("open_late"):
+        for name, stream, model in views[1:]:
+            check_reads(out, stream, model, [[0, 100], [1, 600]], "qcow2-snap-fresh-view")
     for r in spec["requests"]:
         for name, stream, model in views:
             check_reads(out, stream, model, [r], "qcow2-snap" if name != "active" else "qcow2-snap-active")
@@ -383,6 +392,10 @@ def run_vhdx(spec, out):
             ls = dict(ls)
             if i == n - 1 and spec["mode"] == "bad-locator-type" and ls.get("has_parent"):
                 ls["locator_type"] = "b04aefb7-d19e-4a81-b789-25b8e9445914"
+            if i == n - 1 and spec["mode"] == "absolute" and ls.get("has_parent"):
+                # the relative path leads nowhere; the parent is only reachable through absolute_win32_path
+                real = os.path.join(d, dirs[i - 1], f"layer{i - 1}.vhdx")
+                ls["locator"] = [["relative_path", "..\\nowhere\\x.vhdx"], ["absolute_win32_path", real.lstrip("/").replace("/", "\\")]]
             fh, lay, meta = bvhdx.build(ls)
             os.makedirs(os.path.join(d, dirs[i]), exist_ok=True)
             p = os.path.join(d, dirs[i], f"layer{i}.vhdx")
@@ -392,8 +405,14 @@ def run_vhdx(spec, out):
             paths.append(p)
             lays.insert(0, lay)
         top = Path(paths[-1])
-        v, err = lib(VHDX, top)
-        if spec["mode"] in ("missing", "bad-locator-type") and n >= 2:
+        if spec["mode"] == "nameless":
+            import io
+
+            with open(paths[-1], "rb") as f:
+                v, err = lib(VHDX, io.BytesIO(f.read(64 << 20)))  # a handle without a name: the parent cannot be located
+        else:
+            v, err = lib(VHDX, top)
+        if spec["mode"] in ("missing", "bad-locator-type", "nameless") and n >= 2:
             out.nontrivial = True
             out.cls("must-raise")
             if err is None:
@@ -497,12 +516,18 @@ def run_vmdk(spec, out):
             top_path = p
         if spec["mode"] == "missing":
             os.remove(os.path.join(d, dirs[n - 2], f"layer{n - 2}.vmdk"))
-        v, err = lib(VMDK, Path(top_path))
-        if spec["mode"] == "missing":
+        if spec["mode"] == "nameless":
+            import io
+
+            with open(top_path, "rb") as f:
+                v, err = lib(VMDK, io.BytesIO(f.read()))  # embedded delta descriptor, but nothing to locate the parent with
+        else:
+            v, err = lib(VMDK, Path(top_path))
+        if spec["mode"] in ("missing", "nameless"):
             out.nontrivial = True
             out.cls("must-raise")
             if err is None:
-                out.fail("accepted|vmdk-missing-parent", "VMDK() opened a delta disk whose parent does not exist")
+                out.fail(f"accepted|vmdk-{spec['mode']}-parent", "VMDK() opened a delta disk whose parent cannot be resolved")
             _close_vmdk(v)
             return
         if err:
